@@ -24,6 +24,7 @@ structure DS where
   hcache : Option (Tree × Array ByteArray) := none
   dead : Bool := false
   tainted : Bool := false
+  junkStaging : List Nat := []   -- instances whose running load fetched tampered bytes (no bundle) under its staging key
   scen : Nat := 0
 
 def hexOfBA (b : ByteArray) : String := Bytes.toHex (Bytes.ofByteArray b)
@@ -222,6 +223,15 @@ def srcOf (s : String) : Option Src :=
   | "ratelimit" => some .ratelimit | "issuer" => some .issuer | "closed" => some .closed
   | _ => none
 
+/-- a fully verified checkpoint token (`ck id:n:root:ts:rm:origin`) without its byte-hash field; anything else: itself -/
+def ckTail (tok : String) : String :=
+  match tok.splitOn " " with
+  | ["ck", t] =>
+    (match t.splitOn ":" with
+     | [_id, n, root, ts, sigs, origin] => if sigs == "rm" then s!"ck *:{n}:{root}:{ts}:{sigs}:{origin}" else tok
+     | _ => tok)
+  | _ => tok
+
 def handleEv (d : DS) (ws : List String) : Outp :=
   match ws with
   | ["-", "tamper", k, _mut, tok0] =>
@@ -233,9 +243,14 @@ def handleEv (d : DS) (ws : List String) : Outp :=
     else
       -- an earlier content of the same key put back (an older signed checkpoint, a discarded bundle) is the abstract
       -- object it was; anything else is an opaque blob
+      -- (a checkpoint whose bytes changed where no signature looks — unused bits of a base64 character — still carries
+      -- both valid signatures over the same tree head: the token differs in its byte-hash field only, and it is the
+      -- checkpoint it was)
       let o : Obj := match d.seen.get? (k ++ "|" ++ tok) with
         | some o => o
-        | none => .blob tok.hash.toNat
+        | none => (match d.seen.get? (k ++ "|" ++ ckTail tok) with
+          | some o => o
+          | none => .blob tok.hash.toNat)
       tryStep { d with mirror := d.mirror.insert k (tok, o) } (.tamper key (some o)) "tamper"
   | inst :: rest =>
     match inst.toNat? with
@@ -244,7 +259,7 @@ def handleEv (d : DS) (ws : List String) : Outp :=
       let x := d.sys.insts i
       match rest with
       | ["launch", "create"] => tryStep d (.launchCreate i) "launch-create"
-      | ["launch", "load"] => tryStep d (.launchLoad i) "launch-load"
+      | ["launch", "load"] => tryStep { d with junkStaging := d.junkStaging.filter (· != i) } (.launchLoad i) "launch-load"
       | ["launch", "round"] => tryStep d (.launchRound i) "launch-round"
       | ["launch", "submit", _, _] => tryStep d (.launchSubmit i) "launch-submit"
       | ["config", m] => tryStep d (.config i (m != "reset")) "config"
@@ -285,7 +300,12 @@ def handleEv (d : DS) (ws : List String) : Outp :=
         let tok := String.intercalate " " payload
         (match d.mirror.get? k with
          | some (t, o) =>
-           if t == tok then tryStep d (.fetch i (d.keyOf k) (.ok o)) "fetch-ok"
+           if t == tok then
+             let junk : Bool := match d.keyOf k, o with
+               | .staging _, .bundle _ => false
+               | .staging _, _ => d.tainted
+               | _, _ => false
+             tryStep (if junk then { d with junkStaging := i :: d.junkStaging } else d) (.fetch i (d.keyOf k) (.ok o)) "fetch-ok"
            else .bad d s!"fetch of {k} returned {tok} but the last stored payload was {t}"
          | none => .bad d s!"fetch of {k} returned an object the model's store does not have")
       | "upload" :: k :: opts :: more =>
@@ -300,6 +320,18 @@ def handleEv (d : DS) (ws : List String) : Outp :=
                 | .round rd => (d.root rd.new.leaves).1
                 | _ => d
               let key := d.keyOf k
+              -- applyStagedUploads starts the upload of every entry it has read before it reads the next one and does not
+              -- wait for them when a later header fails to parse: a tampered bundle is applied as far as it parses. What it
+              -- writes is the tamperer's choice — in the model, more tampering (the load itself is refused).
+              let junkUp : Bool := match x.phase, key with
+                | .loading .failing, .tile _ => d.tainted && d.junkStaging.contains i
+                | _, _ => false
+              if junkUp then
+                (if r.applied then
+                   let ptok := String.intercalate " " payload
+                   let o : Obj := .blob ptok.hash.toNat
+                   tryStep { d with mirror := d.mirror.insert k (ptok, o) } (.tamper key (some o)) "upload-from-tampered-bundle"
+                 else .ok d "upload-from-tampered-bundle") else
               let (d, o, problem) := d.classifyUpload i key payload
               (match problem with
                | some m => .bad d s!"upload {k}: {m}"
@@ -308,7 +340,8 @@ def handleEv (d : DS) (ws : List String) : Outp :=
                  if eo != "?" && eo != opts then .bad d s!"upload {k} with options {opts}, layout prescribes {eo}" else
                  let imm := opts.startsWith "i" || opts.startsWith "zi"
                  let ptok := String.intercalate " " payload
-                 let d' := if r.applied then { d with mirror := d.mirror.insert k (ptok, o), seen := d.seen.insert (k ++ "|" ++ ptok) o } else d
+                 let seen' := (d.seen.insert (k ++ "|" ++ ptok) o).insert (k ++ "|" ++ ckTail ptok) o
+                 let d' := if r.applied then { d with mirror := d.mirror.insert k (ptok, o), seen := seen' } else d
                  tryStep d' (.upload i key imm o r) s!"upload-{(k.splitOn "/").head!}-{res}"))
          | [] => .bad d "bad upload line")
       | ["discard", k, res] =>
@@ -340,7 +373,7 @@ def handleEv (d : DS) (ws : List String) : Outp :=
            if n.toNat? == some c.leaves.length && root == r && ts.toNat? == some c.time then tryStep d (.loaded i c) "loaded"
            else .bad d s!"instance loaded a tree (size {n}, ts {ts}) that is not the lock checkpoint's (size {c.leaves.length}, ts {c.time})"
          | _ => .bad d s!"loaded in phase {phaseName x.phase}")
-      | ["loadfail", cls] => tryStep d (.loadFail i) s!"loadfail-{cls}"
+      | ["loadfail", cls] => tryStep { d with junkStaging := d.junkStaging.filter (· != i) } (.loadFail i) s!"loadfail-{cls}"
       | ["roundend", cls] =>
         let c : Option Cls := match cls with
           | "ok" => some .ok | "failed" => some .failed | "fatal" => some .fatal | _ => none
